@@ -56,13 +56,13 @@ def readCols (fmts : List Nat) : Nat → Nat → Bytes → Out (List Col)
     let cs ← readCols fmts n (i+1) rest
     pure (c :: cs)
 
-/-- `parseColumns` on the body of a packet held by a fresh handler (the buffer behind the body is
-zero-filled: `Bytes()[:2]` on a shorter body reads zeros, `Bytes()[2:]` then panics). Returns the
-column count and the columns. -/
+/-- `parseColumns` on the body of a packet: a body without room for the column count is rejected
+(`ErrPacketTruncated`, after the `fix:`); a column that declares more bytes than the body holds fails in
+`readCol`. Returns the column count and the columns. -/
 def parseColumns (body : Bytes) (fmts : List Nat) : Out (Nat × List Col) :=
-  let cnt := beVal ((body ++ [0, 0]).take 2)
+  if body.length < 2 then .err else
+  let cnt := beVal (body.take 2)
   if cnt = 0 then .ok (0, [])
-  else if body.length < 2 then .panic
   else do
     let cs ← readCols fmts cnt 0 (body.drop 2)
     pure (cnt, cs)
